@@ -80,7 +80,8 @@ def rule_Q2(ctx: Ctx) -> None:
     ok = X.same_expr(v, "sum(len(dataset) for dataset in self.maze_datasets)", "sum(self.dataset_lengths)", "len(self.mazes)", "sum([len(dataset) for dataset in self.maze_datasets])")
     ctx.judge(f, ok, {"returns": X.U(v)}, "len = sum of the members' lengths", "the collection's length disagrees with its members")
     f, v = single("dataset_lengths")
-    ok = isinstance(v, ast.ListComp) and X.U(v.generators[0].iter) == "self.maze_datasets" and not v.generators[0].ifs and X.U(v.elt) == f"len({X.U(v.generators[0].target)})"
+    ew = X.elementwise(v)
+    ok = ew is not None and ew[2] == "list" and X.U(ew[1]) == "self.maze_datasets" and X.same_expr(ew[0], "len(_x)")
     ctx.judge(f, ok, {"returns": X.U(v)}, "per-member lengths, in member order")
     f, v = single("dataset_cum_lengths")
     ok = X.same_expr(v, "np.array(list(itertools.accumulate(self.dataset_lengths)))", "np.cumsum(self.dataset_lengths)")
